@@ -567,3 +567,63 @@ def run_powell_scenario(spec):
     out["tape_len"] = len(tape.lines)
     out["raised"] = raised
     return out
+
+
+# ----------------------------------------------------------------------------- DownhillSimplexOptimizer (GFO.Model.Simplex)
+
+def run_simplex_scenario(spec):
+    assert spec["opt"] == "DownhillSimplexOptimizer"
+    tape = Tape()
+    holder = {"climb": False}
+    import gradient_free_optimizers.optimizers.local_opt.downhill_simplex as dsm
+
+    def on_built(opt):
+        holder["init_l"] = [[int(x) for x in p] for p in opt.init.init_positions_l]
+        instance_patches(opt, tape)
+        patched_climb = opt.move_climb
+
+        def move_climb(*a, **k):
+            holder["climb"] = True
+            try:
+                return patched_climb(*a, **k)
+            finally:
+                holder["climb"] = False
+        opt.move_climb = move_climb
+        orig_c2p = opt.conv2pos
+
+        def conv2pos(pos):
+            if not holder["climb"]:
+                tape.add("s", " ".join(tok_f(x) for x in np.asarray(pos, dtype=float).ravel()))
+            return orig_c2p(pos)
+        opt.conv2pos = conv2pos
+    orig_sort = dsm.sort_list_idx
+
+    def sort_list_idx(list_):
+        out = orig_sort(list_)
+        tape.add("o", " ".join([str(len(out))] + [str(int(i)) for i in out]))
+        return out
+    dsm.sort_list_idx = sort_list_idx
+    try:
+        with module_patches(tape):
+            out = scen.run_scenario(spec, with_model=False, on_built=on_built)
+    finally:
+        dsm.sort_list_idx = orig_sort
+    real = out["real"]
+    opt, rec, records, space = real["opt"], real["rec"], real["records"], real["space"]
+    snew = (f"snew {opt.init.n_inits} {len(holder['init_l'])} " + " ".join(" ".join(str(x) for x in p) for p in holder["init_l"])).rstrip()
+    f = real["f"]
+    lines, expect = drv.encode_history(space, opt.init.n_inits, opt, rec, records, (lambda k, para: f(para)),
+                                       local=dict(lnew=snew, tape=tape.lines))
+    raised = any(r["exc"] is not None for r in records)
+    if not raised:
+        lines.append("sstate")
+        expect.append("tracker " + tracker_core(opt))
+        sp_ = getattr(opt, "simplex_pos", [])
+        ss_ = getattr(opt, "simplex_scores", [])
+        expect.append(f"simplex step={opt.simplex_step} idx={getattr(opt, 'compress_idx', 0)} "
+                      f"pos={C.show_list([show_opt_pos(p) for p in sp_], str)} scores={C.show_list([tok_f(x) for x in ss_], str)} tapeLeft=0")
+    out.update(lines=lines, expect=expect)
+    out["tape_kinds"] = dict(tape.kinds)
+    out["tape_len"] = len(tape.lines)
+    out["raised"] = raised
+    return out
